@@ -17,12 +17,18 @@ def PrimSafe : Prim → ℝ → Prop
   | .log, r => 0 < r
   | .sqrt, r => 0 < r
   | .artanh, r => |r| < 1
+  | .log1p, r => -1 < r
+  | .lgamma, r => 0 < r
   | _, _ => True
 
 theorem prim_fin {p : Prim} {r : ℝ} (h : PrimSafe p r) :
     (∃ v, applyPrim p (fin r) = fin v) ∧ (∃ d, dPrim p (fin r) = fin d) := by
   cases p
-  · exact ⟨⟨_, rfl⟩, ⟨_, rfl⟩⟩
+  · refine ⟨⟨_, rfl⟩, ?_⟩
+    show ∃ d, (if Num.le (Num.ofInt 0 : EF) (fin r) then (Num.ofInt 1 : EF) else Num.ofInt (-1)) = fin d
+    split
+    · exact ⟨1, by simp⟩
+    · exact ⟨-1, by simp⟩
   · exact ⟨⟨_, rfl⟩, ⟨_, rfl⟩⟩
   · exact ⟨⟨_, rfl⟩, ⟨_, rfl⟩⟩
   · have h' : 0 < r := h
@@ -47,6 +53,49 @@ theorem prim_fin {p : Prim} {r : ℝ} (h : PrimSafe p r) :
     rw [this, EF.fin_mul, EF.fin_div (by positivity)]; simp
   · exact ⟨⟨_, rfl⟩, ⟨_, rfl⟩⟩
   · exact ⟨⟨_, rfl⟩, ⟨_, rfl⟩⟩
+  · -- log1p
+    have h' : -1 < r := h
+    have hne : (1:ℝ) + r ≠ 0 := by linarith
+    refine ⟨⟨Real.log (1 + r), EF.num_log1p h'⟩, ⟨1 / (1 + r), ?_⟩⟩
+    show (fin ((1:Int):ℝ)) / ((fin ((1:Int):ℝ)) + fin r) = _
+    simp only [EF.fin_add, Int.cast_one]
+    rw [EF.fin_div hne]
+  · -- square
+    exact ⟨⟨r * r, rfl⟩, ⟨2 * r, by show (fin ((2:Int):ℝ)) * fin r = _; simp⟩⟩
+  · -- lgamma
+    have h' : 0 < r := h
+    exact ⟨⟨_, EF.num_lgamma h'⟩, ⟨_, EF.num_digamma h'⟩⟩
+  · -- relu
+    refine ⟨?_, ?_⟩
+    · show ∃ v, (if Num.lt (fin r) (Num.ofInt 0 : EF) then (Num.ofInt 0 : EF) else fin r) = fin v
+      split
+      · exact ⟨0, by simp⟩
+      · exact ⟨r, rfl⟩
+    · show ∃ d, (if Num.lt (Num.ofInt 0 : EF) (fin r) then (Num.ofInt 1 : EF) else Num.ofInt 0) = fin d
+      split
+      · exact ⟨1, by simp⟩
+      · exact ⟨0, by simp⟩
+
+/-- `logaddexp` of two finite numbers is the finite number `max a b + log(1 + e^{−|a−b|})` … -/
+theorem logaddexp_fin (a b : ℝ) :
+    (Ad.logaddexp (fin a) (fin b) : EF) = fin ((if a < b then b else a) + Real.log (1 + Real.exp (-|a - b|))) := by
+  have hpos : (-1:ℝ) < Real.exp (-|a - b|) := lt_trans (by norm_num) (Real.exp_pos _)
+  simp only [Ad.logaddexp, EF.fin_sub, EF.num_isNaN_fin, Bool.false_eq_true, if_false, EF.num_abs, EF.fin_neg,
+    EF.num_exp, EF.num_log1p hpos, EF.num_lt, decide_eq_true_eq]
+  split <;> simp
+
+/-- … and both partials of its `custom_jvp` rule are finite -/
+theorem prim2_fin (p : Prim2) (a b : ℝ) :
+    (∃ v, applyPrim2 p (fin a) (fin b) = fin v) ∧
+    (∃ d1 d2, dPrim2 p (fin a) (fin b) = (fin d1, fin d2)) := by
+  cases p
+  have hr : ∀ r : ℝ, (Ad.replaceInf (fin r) : EF) = fin r := by
+    intro r
+    have : (Num.beq (fin r) (pinf : EF)) = false := rfl
+    simp [Ad.replaceInf, this]
+  refine ⟨⟨_, logaddexp_fin a b⟩, ?_⟩
+  simp only [dPrim2, logaddexp_fin, hr, EF.fin_sub, EF.num_exp]
+  exact ⟨_, _, rfl⟩
 
 def Safe : Env EF → Expr EF → Prop
   | env, .var i => isFin (env.s i)
@@ -58,10 +107,12 @@ def Safe : Env EF → Expr EF → Prop
   | env, .div a b => Safe env a ∧ Safe env b ∧ b.eval env ≠ fin 0
   | env, .neg a => Safe env a
   | env, .prim p a => Safe env a ∧ ∀ r, a.eval env = fin r → PrimSafe p r
+  | env, .bin _ a b => Safe env a ∧ Safe env b
   | env, .max a b => Safe env a ∧ Safe env b
   | env, .min a b => Safe env a ∧ Safe env b
   | env, .sel _ a b => Safe env a ∧ Safe env b
   | env, .letE i v body => Safe env v ∧ Safe (env.set i (v.eval env)) body
+  | env, .stopGrad a => isFin (a.eval env)
 
 def AllFin (g : Grad EF) : Prop := ∀ kv ∈ g, isFin kv.2
 
@@ -125,6 +176,11 @@ theorem safe_eval_fin : ∀ (e : Expr EF) (env : Env EF), Safe env e → isFin (
       obtain ⟨x, hx⟩ := isFin_iff.mp (safe_eval_fin a env h.1)
       obtain ⟨v, hv⟩ := (prim_fin (h.2 x hx)).1
       simp [Expr.eval, hx, hv]
+  | .bin p a b, env, h => by
+      obtain ⟨x, hx⟩ := isFin_iff.mp (safe_eval_fin a env h.1)
+      obtain ⟨y, hy⟩ := isFin_iff.mp (safe_eval_fin b env h.2)
+      obtain ⟨v, hv⟩ := (prim2_fin p x y).1
+      simp [Expr.eval, hx, hy, hv]
   | .max a b, env, h => by
       simp only [Expr.eval]; split
       · exact safe_eval_fin b env h.2
@@ -139,6 +195,7 @@ theorem safe_eval_fin : ∀ (e : Expr EF) (env : Env EF), Safe env e → isFin (
       · exact safe_eval_fin b env h.2
   | .letE i v body, env, h => by
       simp only [Expr.eval]; exact safe_eval_fin body _ h.2
+  | .stopGrad a, env, h => h
 
 /-- … and only finite adjoints, for every finite cotangent (so a finite cotangent coming from the
 layers above yields finite cotangents for the layers below: finiteness composes through flows). -/
@@ -176,6 +233,13 @@ theorem safe_vjp_fin : ∀ (e : Expr EF) (env : Env EF), Safe env e → ∀ ct, 
       obtain ⟨d, hd⟩ := (prim_fin (h.2 x hx)).2
       simp only [Expr.vjp, hx, hd]
       exact safe_vjp_fin a env h.1 _ (by simp)
+  | .bin p a b, env, h, ct, hct => by
+      obtain ⟨c, rfl⟩ := isFin_iff.mp hct
+      obtain ⟨x, hx⟩ := isFin_iff.mp (safe_eval_fin a env h.1)
+      obtain ⟨y, hy⟩ := isFin_iff.mp (safe_eval_fin b env h.2)
+      obtain ⟨d1, d2, hd⟩ := (prim2_fin p x y).2
+      simp only [Expr.vjp, hx, hy, hd]
+      exact allFin_append (safe_vjp_fin a env h.1 _ (by simp)) (safe_vjp_fin b env h.2 _ (by simp))
   | .max a b, env, h, ct, hct => by
       obtain ⟨c, rfl⟩ := isFin_iff.mp hct
       have hw : ∀ (p q : Bool), isFin (fin c * (if p then (Num.ofInt 1 : EF) else if q then Num.ofInt 0 else Num.ofInt 1 / Num.ofInt 2)) := by
@@ -204,10 +268,100 @@ theorem safe_vjp_fin : ∀ (e : Expr EF) (env : Env EF), Safe env e → ∀ ct, 
       have hb := safe_vjp_fin body _ h.2 ct hct
       refine allFin_append (fun kv hkv => hb kv (List.mem_filter.mp hkv).1) ?_
       exact safe_vjp_fin v env h.1 _ (total_fin hb _)
+  | .stopGrad a, env, h, ct, hct => by intro kv hkv; simp [Expr.vjp] at hkv
 
 /-- the public `log_prob`'s last line `where(isnan(lps), -inf, lps)`: whatever the value, not NaN -/
 def nanToNegInf : EF → EF | nan => ninf | x => x
 theorem nanToNegInf_not_nan (x : EF) : ¬ isNaN (nanToNegInf x) := by cases x <;> simp [nanToNegInf, isNaN]
+
+/-! ### `GradFin`: finite value and only finite adjoints — the conclusion of C18, with its own composition rules
+
+`Safe` demands that BOTH branches of every `select` are finite.  The log-densities with bounded support
+(`jstats.uniform/expon.logpdf`: `where(outside, -inf, log_probs)`) and the public `log_prob`'s
+`where(isnan(lps), -inf, lps)` have the CONSTANT `-inf` in one branch: a constant receives no cotangent, so
+it is harmless when it is not selected.  `GradFin` composes through that case as well. -/
+
+def GradFin (env : Env EF) (e : Expr EF) : Prop :=
+  isFin (e.eval env) ∧ ∀ ct, isFin ct → AllFin (e.vjp env ct)
+
+theorem gradFin_of_safe {env : Env EF} {e : Expr EF} (h : Safe env e) : GradFin env e :=
+  ⟨safe_eval_fin e env h, fun ct hct => safe_vjp_fin e env h ct hct⟩
+
+/-- the reverse pass of an UNSELECTED branch is run with a zero cotangent -/
+def ZeroCtFin (env : Env EF) (e : Expr EF) : Prop := AllFin (e.vjp env (fin 0))
+
+theorem zeroCtFin_const (env : Env EF) (k : EF) : ZeroCtFin env (Expr.const k) := by
+  intro kv hkv; simp [Expr.vjp] at hkv
+
+theorem zeroCtFin_of_gradFin {env : Env EF} {e : Expr EF} (h : GradFin env e) : ZeroCtFin env e :=
+  h.2 _ (by simp)
+
+theorem gradFin_sel_true {env : Env EF} {c : Env EF → Bool} {a b : Expr EF} (hc : c env = true)
+    (ha : GradFin env a) (hb : ZeroCtFin env b) : GradFin env (Expr.sel c a b) := by
+  refine ⟨by simpa [Expr.eval, hc] using ha.1, fun ct hct => ?_⟩
+  simp only [Expr.vjp, hc, if_true]
+  exact allFin_append (ha.2 ct hct) (by simpa [ZeroCtFin] using hb)
+
+theorem gradFin_sel_false {env : Env EF} {c : Env EF → Bool} {a b : Expr EF} (hc : c env = false)
+    (ha : ZeroCtFin env a) (hb : GradFin env b) : GradFin env (Expr.sel c a b) := by
+  refine ⟨by simpa [Expr.eval, hc] using hb.1, fun ct hct => ?_⟩
+  simp only [Expr.vjp, hc, Bool.false_eq_true, if_false]
+  exact allFin_append (by simpa [ZeroCtFin] using ha) (hb.2 ct hct)
+
+theorem gradFin_add {env : Env EF} {a b : Expr EF} (ha : GradFin env a) (hb : GradFin env b) :
+    GradFin env (Expr.add a b) := by
+  obtain ⟨x, hx⟩ := isFin_iff.mp ha.1
+  obtain ⟨y, hy⟩ := isFin_iff.mp hb.1
+  exact ⟨by simp [Expr.eval, hx, hy], fun ct hct => allFin_append (ha.2 ct hct) (hb.2 ct hct)⟩
+
+theorem gradFin_sub {env : Env EF} {a b : Expr EF} (ha : GradFin env a) (hb : GradFin env b) :
+    GradFin env (Expr.sub a b) := by
+  obtain ⟨x, hx⟩ := isFin_iff.mp ha.1
+  obtain ⟨y, hy⟩ := isFin_iff.mp hb.1
+  refine ⟨by simp [Expr.eval, hx, hy], fun ct hct => ?_⟩
+  obtain ⟨c, rfl⟩ := isFin_iff.mp hct
+  exact allFin_append (ha.2 _ (by simp)) (hb.2 _ (by simp))
+
+theorem gradFin_neg {env : Env EF} {a : Expr EF} (ha : GradFin env a) : GradFin env (Expr.neg a) := by
+  obtain ⟨x, hx⟩ := isFin_iff.mp ha.1
+  refine ⟨by simp [Expr.eval, hx], fun ct hct => ?_⟩
+  obtain ⟨c, rfl⟩ := isFin_iff.mp hct
+  exact ha.2 _ (by simp)
+
+theorem gradFin_mul {env : Env EF} {a b : Expr EF} (ha : GradFin env a) (hb : GradFin env b) :
+    GradFin env (Expr.mul a b) := by
+  obtain ⟨x, hx⟩ := isFin_iff.mp ha.1
+  obtain ⟨y, hy⟩ := isFin_iff.mp hb.1
+  refine ⟨by simp [Expr.eval, hx, hy], fun ct hct => ?_⟩
+  obtain ⟨c, rfl⟩ := isFin_iff.mp hct
+  simp only [Expr.vjp, hx, hy]
+  exact allFin_append (ha.2 _ (by simp)) (hb.2 _ (by simp))
+
+theorem gradFin_prim {env : Env EF} {p : Prim} {a : Expr EF} (ha : GradFin env a)
+    (hp : ∀ r, a.eval env = fin r → PrimSafe p r) : GradFin env (Expr.prim p a) := by
+  obtain ⟨x, hx⟩ := isFin_iff.mp ha.1
+  obtain ⟨⟨v, hv⟩, ⟨d, hd⟩⟩ := prim_fin (hp x hx)
+  refine ⟨by simp [Expr.eval, hx, hv], fun ct hct => ?_⟩
+  obtain ⟨c, rfl⟩ := isFin_iff.mp hct
+  simp only [Expr.vjp, hx, hd]
+  exact ha.2 _ (by simp)
+
+theorem gradFin_let {env : Env EF} {i : Nat} {v body : Expr EF} (hv : GradFin env v)
+    (hb : GradFin (env.set i (v.eval env)) body) : GradFin env (Expr.letE i v body) := by
+  refine ⟨by simpa [Expr.eval] using hb.1, fun ct hct => ?_⟩
+  simp only [Expr.vjp]
+  have h1 := hb.2 ct hct
+  exact allFin_append (fun kv hkv => h1 kv (List.mem_filter.mp hkv).1) (hv.2 _ (total_fin h1 _))
+
+/-- sum of finitely many gradient-finite terms (independent dimensions: `.sum()` of the per-element log-densities) -/
+def sumExpr : List (Expr EF) → Expr EF
+  | [] => Expr.const (fin 0)
+  | e :: es => Expr.add e (sumExpr es)
+
+theorem gradFin_sumExpr {env : Env EF} : ∀ {es : List (Expr EF)}, (∀ e ∈ es, GradFin env e) → GradFin env (sumExpr es)
+  | [], _ => ⟨by simp [sumExpr, Expr.eval], fun ct _ => by intro kv hkv; simp [sumExpr, Expr.vjp] at hkv⟩
+  | e :: es, h =>
+      gradFin_add (h e (List.mem_cons_self ..)) (gradFin_sumExpr (fun e' he' => h e' (List.mem_cons_of_mem _ he')))
 
 end AdT
 end
